@@ -169,6 +169,19 @@ func C20(run *report.Run) {
 			rb.Env = []string{"GOMAXPROCS=" + procs, "GORACE=halt_on_error=0 exitcode=0"}
 			res, err := rb.Run([]drv.Job{{ID: "free", Pkg: "p00000", Prop: "C20", Payload: bs}})
 			if err != nil {
+				// the free-running binary died: a crash caused by generated code racing (the runtime's
+				// "concurrent map" fatal errors, or a race report followed by a crash) is a finding, not a harness fault
+				msg := err.Error() + "\n" + rb.Stderr
+				if (strings.Contains(msg, "WARNING: DATA RACE") || strings.Contains(msg, "fatal error: concurrent map")) && strings.Contains(msg, "batch/gen/") {
+					kind := "race-detector"
+					if strings.Contains(msg, "fatal error: concurrent map") {
+						kind = "concurrent-map-crash"
+					}
+					run.Violate(&report.Violation{Attrs: map[string]string{"kind": kind, "loc": raceLoc(msg)}, State: "c20:free GOMAXPROCS=" + procs,
+						Observed: trunc(msg, 1500), Expected: "no data race in generated code", Detail: map[string]any{"report": trunc(msg, 6000)}})
+					raceRuns++
+					continue
+				}
 				internal("free-running pass: %v", err)
 			}
 			raceRuns++
